@@ -1,3 +1,4 @@
+//go:build verif
 // +build verif
 
 package raft
@@ -11,8 +12,8 @@ import (
 	"crypto/sha256"
 	"encoding/hex"
 	"encoding/json"
-	"io/ioutil"
 	"fmt"
+	"io/ioutil"
 	"sort"
 	"strings"
 	"sync"
@@ -37,48 +38,49 @@ type simViolation struct {
 }
 
 type nodeSnap struct {
-	up                  bool
-	state               State
-	term                uint64
-	lastLogIndex        uint64
-	commitIndex         uint64
-	latestIdx, commIdx  uint64
-	leader              uint64
-	inc                 int
-	xfer                bool // leadership transfer in progress
+	up                 bool
+	state              State
+	term               uint64
+	lastLogIndex       uint64
+	commitIndex        uint64
+	latestIdx, commIdx uint64
+	leader             uint64
+	inc                int
+	xfer               bool // leadership transfer in progress
 }
 
 type ledger struct {
 	w *world
 
-	leaderOf  map[uint64]uint64       // term -> node id
-	committed map[uint64]entryRec     // index -> entry
-	commitTerm map[uint64]uint64      // index -> term of the node that was first seen with the index committed
-	seen      map[[2]uint64]entryRec  // (index, term) -> entry
-	prevTerm  map[[2]uint64]uint64    // (index, term) -> term of index-1
-	votes     map[[2]uint64]uint64    // (voter, term) -> candidate
-	maxTermReported map[uint64]uint64 // voter -> highest term reported in any reply / status (across restarts)
-	ackStored map[uint64][2]uint64    // node -> (index, term) of the newest entry acknowledged as stored (success append replies)
+	leaderOf        map[uint64]uint64      // term -> node id
+	committed       map[uint64]entryRec    // index -> entry
+	commitTerm      map[uint64]uint64      // index -> term of the node that was first seen with the index committed
+	seen            map[[2]uint64]entryRec // (index, term) -> entry
+	prevTerm        map[[2]uint64]uint64   // (index, term) -> term of index-1
+	votes           map[[2]uint64]uint64   // (voter, term) -> candidate
+	maxTermReported map[uint64]uint64      // voter -> highest term reported in any reply / status (across restarts)
+	ackStored       map[uint64][2]uint64   // node -> (index, term) of the newest entry acknowledged as stored (success append replies)
 
 	// per node, since last (re)start
-	had      map[int]map[uint64]bool // node -> committed indices the node held (log or snapshot)
-	info     map[int]*infoRec
-	ldrLog   map[int]*ldrLogRec
-	configs  map[uint64]string // index -> canonical config (from committed entries)
+	had     map[int]map[uint64]bool // node -> committed indices the node held (log or snapshot)
+	info    map[int]*infoRec
+	ldrLog  map[int]*ldrLogRec
+	configs map[uint64]string // index -> canonical config (from committed entries)
 
-	reports   map[[2]int]Info // (node, incarnation) -> last status report obtained through a real GetInfo task
-	roundDone map[[3]uint64]uint64 // (leader, term, node) -> LastIndex of the last completed round
+	reports    map[[2]int]Info      // (node, incarnation) -> last status report obtained through a real GetInfo task
+	roundDone  map[[3]uint64]uint64 // (leader, term, node) -> LastIndex of the last completed round
+	commitSeen map[int]uint64       // node -> highest commit index the node itself has reported
 
 	newsAt int // clock of the last transition in which a leader emerged or an index was committed
-	ghost int // node whose outputs of the current transition are discarded (-1: none)
+	ghost  int // node whose outputs of the current transition are discarded (-1: none)
 
-	prev []nodeSnap
-	viol []simViolation
+	prev     []nodeSnap
+	viol     []simViolation
 	seenViol map[string]bool
 
 	stats struct {
 		leaders, commits, elections, configChanges, snapshots, compactions, restarts, linChecks, infoReports int
-		snapInstalledKeep, snapInstalledReset, snapIgnored                                                       int
+		snapInstalledKeep, snapInstalledReset, snapIgnored                                                   int
 	}
 	oracles map[string]bool // enabled optional oracles (durable, ...)
 }
@@ -99,20 +101,20 @@ func newLedger(w *world) *ledger {
 		w:         w,
 		leaderOf:  map[uint64]uint64{},
 		committed: map[uint64]entryRec{}, commitTerm: map[uint64]uint64{},
-		seen:      map[[2]uint64]entryRec{},
-		prevTerm:  map[[2]uint64]uint64{},
-		votes:     map[[2]uint64]uint64{},
+		seen:            map[[2]uint64]entryRec{},
+		prevTerm:        map[[2]uint64]uint64{},
+		votes:           map[[2]uint64]uint64{},
 		maxTermReported: map[uint64]uint64{},
-		ackStored: map[uint64][2]uint64{},
-		had:       map[int]map[uint64]bool{},
-		info:      map[int]*infoRec{},
-		ldrLog:    map[int]*ldrLogRec{},
-		configs:   map[uint64]string{},
-		seenViol:  map[string]bool{},
-		oracles:   map[string]bool{},
-		roundDone: map[[3]uint64]uint64{},
-		reports:   map[[2]int]Info{},
-		ghost:     -1,
+		ackStored:       map[uint64][2]uint64{},
+		had:             map[int]map[uint64]bool{},
+		info:            map[int]*infoRec{},
+		ldrLog:          map[int]*ldrLogRec{},
+		configs:         map[uint64]string{},
+		seenViol:        map[string]bool{},
+		oracles:         map[string]bool{},
+		roundDone:       map[[3]uint64]uint64{}, commitSeen: map[int]uint64{},
+		reports: map[[2]int]Info{},
+		ghost:   -1,
 	}
 	l.installTracer()
 	return l
@@ -208,6 +210,15 @@ func (l *ledger) checkRestart(n *simNode) {
 			l.violate("crash", "acknowledged-entry-lost", fmt.Sprintf("node %d acknowledged entry %d (term %d) as stored but after restart its log is (%d,%d] with snapshot %d", n.id, a[0], a[1], r.log.PrevIndex(), r.lastLogIndex, r.snaps.index))
 		}
 	}
+	// what the node itself reported committed (a leader counted its own copy, a follower had flushed it) is still
+	// there: covered by its snapshot or in its log
+	if cs := l.commitSeen[n.idx]; cs > r.snaps.index {
+		c, known := l.committed[cs]
+		e, ok := l.entryAt(n, cs)
+		if !ok || (known && e.term != c.Term) {
+			l.violate("crash", "committed-entry-lost-by-crash", fmt.Sprintf("node %d had reported index %d committed but after restart its log is (%d,%d] with snapshot %d", n.id, cs, r.log.PrevIndex(), r.lastLogIndex, r.snaps.index))
+		}
+	}
 	l.checkRestartLog(n)
 }
 
@@ -238,7 +249,7 @@ func (l *ledger) checkRestartLog(n *simNode) {
 	}
 }
 
-func (l *ledger) onCrash(n *simNode)     {}
+func (l *ledger) onCrash(n *simNode) {}
 func (l *ledger) onServeExit(n *simNode) {
 	err := n.serveErr
 	if err == ErrServerClosed {
@@ -343,8 +354,8 @@ func (l *ledger) claimLeader(term, id uint64, what string) {
 }
 
 func (l *ledger) onFSMUpdate(n *simNode, id string, pos int) {}
-func (l *ledger) onFSMRestore(n *simNode, st []string)     {}
-func (l *ledger) onTaskDone(st *simTask)                   {}
+func (l *ledger) onFSMRestore(n *simNode, st []string)       {}
+func (l *ledger) onTaskDone(st *simTask)                     {}
 
 func (l *ledger) beforeEvent(e simEvent) {
 	l.prev = l.prev[:0]
@@ -689,6 +700,9 @@ func (l *ledger) scanNode(n *simNode) {
 		delete(l.ldrLog, n.idx)
 	}
 
+	if r.commitIndex > l.commitSeen[n.idx] && r.commitIndex <= r.lastLogIndex {
+		l.commitSeen[n.idx] = r.commitIndex
+	}
 	// L-commit: record newly committed entries
 	if r.commitIndex > r.lastLogIndex {
 		l.violate("info", "commit-beyond-log", fmt.Sprintf("node %d: commitIndex %d > lastLogIndex %d", n.id, r.commitIndex, r.lastLogIndex))
@@ -1219,6 +1233,11 @@ func (l *ledger) digest() string {
 	})
 	for _, k := range vk {
 		fmt.Fprintf(&sb, "V%d.%d=%d;", k[0], k[1], l.votes[k])
+	}
+	for i := 0; i < len(l.w.nodes); i++ {
+		if cs := l.commitSeen[i]; cs > 0 {
+			fmt.Fprintf(&sb, "CS%d=%d;", i, cs)
+		}
 	}
 	// completed catch-up rounds not yet used by a promotion
 	rk := make([][3]uint64, 0, len(l.roundDone))
